@@ -90,7 +90,7 @@ Definition w_subst_count0 := mk FSubstitute 1 9 P0 (SList [1;1]) SNil None None 
 Definition w_subst_count_neg := mk FSubstitute 1 9 P0 (SList [1;1]) SNil None None None TDefault (CNum (-1)) false.
 (* (count #\d "d<e9>d") with a two-byte character => 2 (repaired: was an index out of range) *)
 Definition w_count_utf8 := mk FCount 0 0 P0 (SStr [0;133;0]) SNil None None None TDefault CAbsent false.
-(* (assoc 1 nil) => type-error; (assoc 1 '((2 . 0)) :test '<) => nil *)
+(* (assoc 1 nil) => nil (repaired: was a type-error); (assoc 1 '((2 . 0)) :test '<) => nil *)
 Definition w_assoc_nil := mk FAssoc 1 0 P0 SNil SNil None None None TDefault CAbsent false.
 Definition w_assoc_order := mk FAssoc 1 0 P0 (SList [2]) (SList [0]) None None None (TTest TLt) CAbsent false.
 (* (search '(1 2) '(1 2 3) :from-end t) => nil; (search '() '(1 2 3) :start2 1) => 0 *)
@@ -133,7 +133,7 @@ Definition w_find_if_not := mk FFindIfNot 0 0 P0 (SVec [0;1;2]) SNil None None N
 
 Definition refutation_witnesses : list call :=
   [w_remove_if_not; w_find_if_not; w_test_not; w_subst_test_not; w_setdiff_test_not; w_subst_count; w_subst_count0; w_subst_count_neg;
-   w_assoc_nil; w_assoc_order; w_search_from_end; w_search_empty; w_mismatch_from_end; w_mismatch_start;
+   w_assoc_order; w_search_from_end; w_search_empty; w_mismatch_from_end; w_mismatch_start;
    w_replace_end; w_fill_end; w_subseq_nil; w_every_nil; w_subsetp_nil; w_reduce_nil; w_map_nil; w_merge_nil;
    w_merge_tie; w_some_value; w_reduce_empty; w_reduce_start; w_dups_ne; w_dups_from_end].
 
@@ -150,7 +150,7 @@ Proof. vm_compute. split; reflexivity. Qed.
 (* ---- repaired defects: the witnesses of the findings repaired in slip (repo_fixes/C14-n.patch) are now inside
    the guard, and the model of the repaired code returns the value the language defines ------------------ *)
 Definition repaired_witnesses : list (call * res) :=
-  [ (w_count_utf8, RInt 2); (w_count_nil, RSeq [2]) ].
+  [ (w_count_utf8, RInt 2); (w_count_nil, RSeq [2]); (w_assoc_nil, RNil) ].
 Definition repaired_ok (cr : call * res) : bool :=
   in_domain (fst cr) &&
   match m_call (fst cr), s_call (fst cr) with
@@ -253,8 +253,8 @@ Lemma if_not_missing_refuted : refutes w_remove_if_not = true /\ refutes w_find_
 Proof. vm_compute. repeat split; reflexivity. Qed.
 Lemma substitute_count_refuted : refutes w_subst_count = true /\ refutes w_subst_count0 = true /\ refutes w_subst_count_neg = true.
 Proof. vm_compute. repeat split; reflexivity. Qed.
-Lemma assoc_refuted : refutes w_assoc_nil = true /\ refutes w_assoc_order = true.
-Proof. vm_compute. split; reflexivity. Qed.
+Lemma assoc_refuted : refutes w_assoc_order = true.
+Proof. vm_compute. reflexivity. Qed.
 Lemma search_refuted : refutes w_search_from_end = true /\ refutes w_search_empty = true.
 Proof. vm_compute. split; reflexivity. Qed.
 Lemma mismatch_refuted : refutes w_mismatch_from_end = true /\ refutes w_mismatch_start = true.
